@@ -123,6 +123,10 @@ def pulse_with_hmax(ctx):
         ctx.count("pulse_with_hmax")
 
 
+CONSERVATION_TOL = 1e-9     # relative; LSODA preserves linear invariants to rounding (largest drift seen on the unchanged tree: 1.3e-12 over 1200 laws)
+CONS_SEEN = [0.0]
+
+
 def one(ctx, rng, linear, spec=None):
     from bioscrape.simulator import py_simulate_model
     from scipy.linalg import expm
@@ -212,6 +216,22 @@ def one(ctx, rng, linear, spec=None):
         ctx.violation("det/accuracy/" + kind, "row %d (t=%g) differs from the %s reference by %g (allowed %g)" % (i, T[i], kind, err[i].max(), tol[i].min()),
                       dict(rep, row=i, got=rows[i].tolist(), reference=ref[i].tolist()))
         return
+    # ---- linear conservation laws (theorem rhsGlobal_conserves): a weighting of the species that every reaction's net
+    # change (immediate + delayed part) leaves untouched is a constant of the rate equations, whatever the rate laws; the
+    # weightings come from the specification's stoichiometry
+    if not spec.get("rules"):
+        u_, sv, _ = np.linalg.svd(S, full_matrices=True) if S.size else (np.eye(n), np.zeros(0), None)
+        rank = int(np.sum(sv > 1e-9))
+        for w in u_[:, rank:].T:
+            drift = np.abs(rows @ w - x0 @ w)
+            allowed = CONSERVATION_TOL * (1.0 + np.abs(rows) @ np.abs(w))
+            CONS_SEEN[0] = max(CONS_SEEN[0], float((drift / (1.0 + np.abs(rows) @ np.abs(w))).max()))
+            if np.any(drift > allowed):
+                i = int(np.argmax(drift / allowed))
+                ctx.violation("det/conservation", "the conserved combination %s of the species drifts by %g at row %d (t=%g)"
+                              % (np.round(w, 6).tolist(), drift[i], i, T[i]), dict(rep, row=i, weights=w.tolist(), got=rows[i].tolist()))
+                return
+            ctx.count("conservation_laws_checked")
     ctx.nontriv((kind, len(spec["reactions"]), len(T), bool(np.ptp(np.diff(T)) > 1e-9), tuple(sorted(r["prop"]["type"] for r in spec["reactions"]))))
     ctx.count("validated:" + kind)
     ctx.sample({"spec": spec, "n_times": len(T), "max_error": float(err.max())}, cap=3)
@@ -224,6 +244,7 @@ def run(ctx):
     pulse_with_hmax(ctx)
     for i in range(n):
         one(ctx, ctx.rng, linear=(i % 2 == 0))
+    ctx.count("largest_relative_drift_of_a_conserved_combination_x1e15", int(CONS_SEEN[0] * 1e15))
 
 
 def replay(ctx, obj):
